@@ -11,7 +11,7 @@ REQUIRED_THEOREMS = ['Props.C17.each_fn_once', 'Props.C17.trace_linear', 'Props.
                      'Props.C17.untracked_has_no_history', 'Props.C17.loop_is_iterative_and_linear']
 RULE = ('chains of depth 10..2000 (quick) / 5000 (thorough) and wide fan-out graphs over add/mul/neg/clone, run through the '
         'model and the implementation with the full engine trace compared (each recorded op called exactly once, in a topological '
-        'order); programs whose ops run under no_grad or on operands that do not require grad (results must hold no children and '
+        'order); programs whose ops run under no_grad or on operands that do not require grad — every op of the catalogue, optional operands absent included — (results must hold no children and '
         'no grad_fn), also as the very first statements of a fresh interpreter (first tensor created inside a pre-entered context). Runtime residue observed on the implementation only: a chain of 50 000 ops back-propagates (no recursion '
         'limit) with one call per op and linear time; operands of untracked results are freed (weakref) in a loop of 100 000 '
         'untracked updates. Non-trivial: depth >= 200 or fan-out >= 50 or an untracked op.')
@@ -97,8 +97,38 @@ def fresh(rng):
     return {'kind': 'fresh', 'lines': lines}
 
 
+def catalogue_untracked(rng, op, ng=None):
+    """EVERY op of the catalogue (arguments from the per-op generators) computed untracked — inside no_grad with operands of
+    either flag, or with tracking on from operands none of which requires grad (optional operands absent included): every
+    result must come out without operands and without a backward function"""
+    import gen_ops
+    gen = gen_ops.gen_basic if op in gen_ops.OPS_BASIC else gen_ops.gen_nn
+    leaves, args = gen(rng, op, False)
+    if op in ('linear', 'conv1d', 'conv2d') and len(leaves) == 3 and rng.chance(.5):     # the optional bias absent
+        leaves, args = leaves[:2], [0] + list(args[1:])
+    ng = rng.chance(.5) if ng is None else ng
+    leaves = [tuple(list(lf[:2]) + [((k == 0 or rng.chance(.6)) if ng else False) if len(lf) < 4 or lf[3] != 'i64' else False] + list(lf[3:])) for k, lf in enumerate(leaves)]
+    prog = gen_ops.program({'op': op, 'leaves': leaves, 'args': args}, rng)
+    nl = len(leaves)
+    lines = prog[:nl] + (['t ctx new ng', 't ctx enter 0'] if ng else []) + prog[nl:] + (['t ctx exit 0'] if ng else [])
+    io = tprog.run_program(lines)
+    res = io[nl + (2 if ng else 0)]
+    nout = 0 if res in ('rejected', 'hidden') or not res.startswith('t') else len(res.split(','))
+    lines += [f't flags {k}' for k in range(nl, nl + nout)]
+    if nout:
+        lines += [f't op mul {nl},{nl}', f't flags {nl + nout}']
+    return {'kind': 'untracked', 'op': op, 'lines': lines}
+
+
 def cases(rng, tier):
     out = []
+    import gen_ops
+    for op in gen_ops.OPS_BASIC + gen_ops.OPS_NN:
+        for k in range((12 if op in ('linear', 'conv1d', 'conv2d', 'batch_norm') else 4) if tier == 'quick' else 40):
+            try:
+                out.append(catalogue_untracked(rng, op, ng=bool(k % 2)))
+            except Exception:
+                continue
     for _ in range(3 if tier == 'quick' else 12):
         out.append(fresh(rng))
     depths = [10, 50, 200, 1000, 2000] if tier == 'quick' else [10, 50, 200, 1000, 2000, 3000, 5000]
